@@ -581,4 +581,100 @@ theorem convertDefault_f64_iff (p : Parts) (hwf : PartsWF p) (b : UInt64)
   | outOfRange => rw [hc] at h; cases h
   | outOfFuel => rw [hc] at h; cases h
 
+/-! ## The number a literal becomes, predicted from (B) alone -/
+
+/-- the `Number` (`N::PosInt` / `N::NegInt` / `N::Float`) that (B) predicts for a literal in the default
+    configuration; `none` = `NumberOutOfRange` -/
+def numOfLit (l : NumLit) : Option Num :=
+  match FD.partsOfLiteral l with
+  | .u64 n => some (.pos n)
+  | .i64 k => some (.neg k)
+  | .negInt n => some (.float (F64.neg (F64.ofU64 n)))
+  | .parts pos s e => (FD.f64FromParts pos s e).map .float
+  | .expOverflow pos z pe => (FD.parseExponentOverflow pos z pe).map .float
+  | .invalid => none
+
+/-- a stored number read as `f64` (`Number::as_f64`: integers are cast) -/
+def numAsF64 : Num → Option UInt64
+  | .pos n => some (F64.ofU64 n)
+  | .neg k => some (F64.neg (F64.ofU64 k.natAbs))
+  | .float b => some b
+  | .lit _ => none
+
+theorem numOfLit_asF64 (l : NumLit) : (numOfLit l).bind numAsF64 = FD.floatOfLiteral l := by
+  unfold numOfLit Model.FloatDefault.floatOfLiteral
+  cases FD.partsOfLiteral l with
+  | u64 n => rfl
+  | i64 k => rfl
+  | negInt n => rfl
+  | invalid => rfl
+  | parts pos s e =>
+    simp only [Model.FloatDefault.Parts.toF64]
+    cases FD.f64FromParts pos s e <;> rfl
+  | expOverflow pos z pe =>
+    simp only [Model.FloatDefault.Parts.toF64]
+    cases FD.parseExponentOverflow pos z pe <;> rfl
+
+theorem numOfLit_none_iff (l : NumLit) : numOfLit l = none ↔ FD.floatOfLiteral l = none := by
+  unfold numOfLit Model.FloatDefault.floatOfLiteral
+  cases FD.partsOfLiteral l with
+  | u64 n => simp [Model.FloatDefault.Parts.toF64]
+  | i64 k => simp [Model.FloatDefault.Parts.toF64]
+  | negInt n => simp [Model.FloatDefault.Parts.toF64]
+  | invalid => simp [Model.FloatDefault.Parts.toF64]
+  | parts pos s e =>
+    simp only [Model.FloatDefault.Parts.toF64]
+    cases FD.f64FromParts pos s e <;> simp
+  | expOverflow pos z pe =>
+    simp only [Model.FloatDefault.Parts.toF64]
+    cases FD.parseExponentOverflow pos z pe <;> simp
+
+theorem numOfLit_float (l : NumLit) (b : UInt64) (h : numOfLit l = some (.float b)) :
+    FD.floatOfLiteral l = some b ∧ (∀ n, FD.partsOfLiteral l ≠ .u64 n) ∧
+      (∀ k, FD.partsOfLiteral l ≠ .i64 k) := by
+  refine ⟨by rw [← numOfLit_asF64, h]; rfl, ?_, ?_⟩
+  · intro n hn; unfold numOfLit at h; rw [hn] at h; cases h
+  · intro k hk; unfold numOfLit at h; rw [hk] at h; cases h
+
+theorem numOfLit_of_float (l : NumLit) (b : UInt64) (h : FD.floatOfLiteral l = some b)
+    (h1 : ∀ n, FD.partsOfLiteral l ≠ .u64 n) (h2 : ∀ k, FD.partsOfLiteral l ≠ .i64 k) :
+    numOfLit l = some (.float b) := by
+  unfold Model.FloatDefault.floatOfLiteral at h
+  unfold numOfLit
+  cases hp : FD.partsOfLiteral l with
+  | u64 n => exact absurd hp (h1 n)
+  | i64 k => exact absurd hp (h2 k)
+  | negInt n =>
+    rw [hp] at h; simp only [Model.FloatDefault.Parts.toF64, Option.some.injEq] at h
+    simp only; rw [h]
+  | invalid => rw [hp] at h; cases h
+  | parts pos s e =>
+    rw [hp] at h; simp only [Model.FloatDefault.Parts.toF64] at h
+    simp only; rw [h]; rfl
+  | expOverflow pos z pe =>
+    rw [hp] at h; simp only [Model.FloatDefault.Parts.toF64] at h
+    simp only; rw [h]; rfl
+
+/-- (A)'s result as a `Number`, as `Spec.Canon.numOf` and `Machine.numValue` read it -/
+def numOfNRes : NRes → Option Num
+  | .u64 n => some (.pos n)
+  | .i64 k => some (.neg k)
+  | .f64 b => some (.float b)
+  | .outOfRange => none
+  | .outOfFuel => none
+
+/-- **The link, as numbers.** -/
+theorem numOfNRes_convertDefault (p : Parts) (hwf : PartsWF p) :
+    numOfNRes (convertDefault p) = numOfLit (toNumLit p) := by
+  rw [convertDefault_eq_floatDefault p hwf]
+  unfold numOfLit
+  have hinv := partsOfLiteral_ne_invalid (toNumLit p) (toNumLit_wf p hwf)
+  cases h : FD.partsOfLiteral (toNumLit p) with
+  | invalid => exact absurd h hinv
+  | u64 n => rfl
+  | i64 n => rfl
+  | negInt n => rfl
+  | parts pos s e => simp only [resOfParts]; cases FD.f64FromParts pos s e <;> rfl
+  | expOverflow pos z pe => simp only [resOfParts]; cases FD.parseExponentOverflow pos z pe <;> rfl
+
 end SJ.Proofs.NumLink
